@@ -121,7 +121,10 @@ fn pred_ref(p: u8, k: &str, v: &str) -> bool {
         4 => !v.is_empty(),
         5 => v == "x",
         6 => k.starts_with('z'),
-        _ => k.len() > 1,
+        7 => k.len() > 1,
+        // positional predicates for the size ladder: parity of the last digit of the key
+        8 => k.bytes().filter(u8::is_ascii_digit).last().map(|d| d % 2 == 0).unwrap_or(true),
+        _ => k.bytes().filter(u8::is_ascii_digit).last().map(|d| d % 2 == 1).unwrap_or(false),
     }
 }
 fn pred_real(p: u8, k: &purl::qualifiers::QualifierKey, v: &str) -> bool {
@@ -133,7 +136,9 @@ fn pred_real(p: u8, k: &purl::qualifiers::QualifierKey, v: &str) -> bool {
         4 => !v.is_empty(),
         5 => v == "x",
         6 => k.as_str().starts_with('z'),
-        _ => k.len() > 1,
+        7 => k.len() > 1,
+        8 => k.as_str().bytes().filter(u8::is_ascii_digit).last().map(|d| d % 2 == 0).unwrap_or(true),
+        _ => k.as_str().bytes().filter(u8::is_ascii_digit).last().map(|d| d % 2 == 1).unwrap_or(false),
     }
 }
 
@@ -922,4 +927,150 @@ pub fn long_histories(acc: &mut Acc) -> Value {
     acc.evals += steps;
     acc.nontrivial += steps;
     json!({"engine": "C-long-histories", "keys": n, "histories": 12, "steps": steps})
+}
+
+/// Size ladder: for EVERY size n up to the bound, a collection of n keys is built (three insertion
+/// orders, alternating letter case and API), then at EVERY position — each stored key, and an absent
+/// key that would land just before / after it — every kind of operation is applied to a clone and
+/// judged with the full state oracle. Thresholds inside the collection (a search strategy that
+/// switches at some length, a growth step) lie on this ladder wherever they are below the bound.
+pub fn size_ladder(tier: Tier, only_n: Option<usize>, acc: &mut Acc) -> Value {
+    let nmax = match tier {
+        Tier::Quick => 40usize,
+        Tier::Thorough => 130usize,
+    };
+    let mut steps = 0u64;
+    for n in 0..=nmax {
+        if only_n.map(|x| x != n).unwrap_or(false) {
+            continue;
+        }
+        let keys: Vec<String> = (0..n).map(|i| format!("q{i:03}b")).collect();
+        // absent neighbours: sort just before ("q007a") and just after ("q007c") the stored key
+        let mut universe: Vec<String> = keys.clone();
+        for i in 0..n {
+            universe.push(format!("q{i:03}a"));
+            universe.push(format!("Q{i:03}C"));
+        }
+        universe.push("a".into());
+        universe.push("zz".into());
+        let m = QModel { name: "quals-ladder", keys: universe.clone(), invalid: vec!["".into(), "q000b ".into(), "\u{212A}".into()], values: vec![], acts: vec![], typed: false, init_from_pairs: 0 };
+        let asc: Vec<usize> = (0..n).collect();
+        let desc: Vec<usize> = (0..n).rev().collect();
+        let zig: Vec<usize> = (0..n).map(|i| if i % 2 == 0 { i / 2 } else { n - 1 - i / 2 }).collect();
+        let mut built: Vec<QState> = Vec::new();
+        for (oi, order) in [&asc, &desc, &zig].iter().enumerate() {
+            if n < 2 && oi > 0 {
+                continue;
+            }
+            let mut st = QState { real: Qualifiers::default(), refm: BTreeMap::new() };
+            let mut ok = true;
+            for (j, i) in order.iter().enumerate() {
+                let k = if j % 2 == 0 { keys[*i].clone() } else { keys[*i].to_ascii_uppercase() };
+                let act = match (j + oi) % 3 {
+                    0 => QAct::Insert(k, format!("v{i}")),
+                    1 => QAct::EntryVacantInsert(k, format!("v{i}")),
+                    _ => QAct::EntryOrInsert(k, format!("v{i}")),
+                };
+                let tr = || json!({"engine": "quals-ladder", "n": n, "insert_order": oi, "building_step": j, "action": format!("{:?}", act)});
+                match guarded(|| {
+                    let nx = m.step(&st, &act, &tr, acc);
+                    nx
+                }) {
+                    Ok(nx) => st = nx,
+                    Err(msg) => {
+                        acc.violate(Violation { prop: "C06", kind: "panic".into(), case: tr(), detail: msg });
+                        ok = false;
+                        break;
+                    },
+                }
+                steps += 1;
+            }
+            if !ok {
+                continue;
+            }
+            {
+                let tr = || json!({"engine": "quals-ladder", "n": n, "insert_order": oi, "action": "built"});
+                if let Err(msg) = guarded(|| {
+                    m.check_state(&st, &tr, acc);
+                    m.check_new_state(&st, &tr, acc);
+                }) {
+                    acc.violate(Violation { prop: "C06", kind: "panic".into(), case: tr(), detail: msg });
+                    continue;
+                }
+            }
+            // a collection obtained in one go from the same pairs
+            let pairs: Vec<(String, String)> = order.iter().map(|i| (keys[*i].clone(), format!("v{i}"))).collect();
+            match Qualifiers::try_from_iter(pairs.iter().map(|(k, v)| (k.as_str(), v.as_str()))) {
+                Ok(q) if q == st.real && hash_of(&q) == hash_of(&st.real) => {},
+                other => acc.violate(Violation { prop: "C11", kind: "ladder-try_from_iter".into(), case: json!({"engine": "quals-ladder", "n": n, "insert_order": oi, "action": "try_from_iter"}), detail: format!("try_from_iter of the same {n} pairs gives {:?}, inserts gave {:?}", other.as_ref().map(content).map_err(|e| e.to_string()), content(&st.real)) }),
+            }
+            if let Some(first) = built.first() {
+                if let Some(why) = m.same_object(first, &st) {
+                    acc.violate(Violation { prop: "C11", kind: "same-content-objects-differ".into(), case: json!({"engine": "quals-ladder", "n": n, "insert_order": oi, "action": "compare"}), detail: why });
+                }
+            }
+            built.push(st);
+        }
+        // every position x every kind of operation, on the collection built in ascending order (and the zig-zag one)
+        for (bi, base) in built.iter().enumerate() {
+            if bi == 1 {
+                continue;
+            }
+            let mut acts: Vec<QAct> = Vec::new();
+            for i in 0..n {
+                let stored_u = keys[i].to_ascii_uppercase();
+                acts.push(QAct::Insert(stored_u.clone(), "w".into()));
+                acts.push(QAct::Remove(stored_u.clone()));
+                acts.push(QAct::GetMutWrite(stored_u.clone(), "w".into()));
+                acts.push(QAct::IndexMutWrite(stored_u.clone(), "w".into()));
+                for op in 0..6u8 {
+                    acts.push(QAct::EntryOccupied(stored_u.clone(), op, "w".into()));
+                }
+                acts.push(QAct::EntryAndModifyOrInsert(stored_u.clone(), "w".into(), "x".into()));
+                for absent in [format!("q{i:03}a"), format!("Q{i:03}C")] {
+                    acts.push(QAct::Insert(absent.clone(), "w".into()));
+                    acts.push(QAct::EntryVacantInsert(absent.clone(), "w".into()));
+                    acts.push(QAct::EntryOrInsertWith(absent.clone(), "w".into()));
+                    acts.push(QAct::Remove(absent.clone()));
+                    acts.push(QAct::IndexMutWrite(absent.clone(), "w".into()));
+                }
+            }
+            for k in ["a", "ZZ", "", "q000b "] {
+                acts.push(QAct::Insert(k.into(), "w".into()));
+                acts.push(QAct::Remove(k.into()));
+                acts.push(QAct::EntryOrInsert(k.into(), "w".into()));
+            }
+            for p in 0..10u8 {
+                acts.push(QAct::Retain(p));
+                acts.push(QAct::RetainMut(p, "w".into()));
+            }
+            for which in 0..4u8 {
+                acts.push(QAct::IterMutWrite(which, "w".into()));
+            }
+            acts.push(QAct::Clear);
+            acts.push(QAct::Reserve(7));
+            for act in &acts {
+                let tr = || json!({"engine": "quals-ladder", "n": n, "insert_order": if bi == 0 { 0 } else { 2 }, "action": format!("{:?}", act)});
+                if let Err(msg) = guarded(|| {
+                    let nx = m.step(base, act, &tr, acc);
+                    m.check_state(&nx, &tr, acc);
+                }) {
+                    acc.violate(Violation { prop: "C06", kind: "panic".into(), case: tr(), detail: msg });
+                }
+                steps += 1;
+            }
+        }
+    }
+    acc.evals += steps;
+    acc.nontrivial += steps;
+    json!({"engine": "C-size-ladder", "model": "quals-ladder", "every_size_up_to": nmax, "steps": steps})
+}
+
+pub fn replay_ladder(case: &Value) -> Option<Vec<Violation>> {
+    let n = case["n"].as_u64()? as usize;
+    let mut acc = Acc::new();
+    size_ladder(Tier::Thorough, Some(n), &mut acc);
+    // only the violations of the recorded action
+    let want = &case["action"];
+    Some(acc.violations.into_iter().filter(|v| &v.case["action"] == want && v.case["insert_order"] == case["insert_order"]).collect())
 }
